@@ -146,6 +146,31 @@ def main():
     ok &= expect("tle epoch: lost carry (one day early) rejected", {"written", "read-back"} <= set(v.get(3, ())))
     ok &= expect("tle epoch: nearest fraction accepted " + str(v.get(4)), 4 not in v)
     ok &= expect("tle epoch: fraction 2 ms away rejected", "written" in v.get(5, ()))
+    # ---- VisibilityTrace: the stream of one pass over a six-date grid ------------------------------------------------------------
+    def g(sec, up, rise):
+        return {"s": sec, "us": 0, "up": up, "rise": rise}
+
+    def smp(sec):
+        return {"k": "S", "s": sec, "us": 0, "cls": "-", "lab": "-", "up": 1, "z": 0}
+
+    def evt(sec, us, cls, lab, z=3):
+        return {"k": "E", "s": sec, "us": us, "cls": cls, "lab": lab, "up": 0, "z": z}
+    grid = [g(0, -1, 1), g(60, -1, 1), g(120, 1, 1), g(180, 1, -1), g(240, -1, -1), g(300, -1, -1)]
+    good = [evt(100, 5, "signal", "AOS"), smp(120), evt(150, 0, "max", "MAX"), smp(180), evt(230, 9, "signal", "LOS")]
+    dup = good[:1] + [evt(100, 5, "signal", "AOS")] + good[1:]
+    below = good + [smp(240)]
+    missing = [x for x in good if not (x["k"] == "S" and x["s"] == 180)]
+    wrong = [evt(100, 5, "signal", "LOS")] + good[1:]
+    blunt = [evt(100, 5, "signal", "AOS", z=900000)] + good[1:]
+    name, mc, cl = tlc.wrap("VisibilityTrace", {"ZTol": 2000}, name="MCVisibilityTraceSelf")
+    cfg = "INIT TInit\nNEXT TNext\n" + cl + "INVARIANT Report\nCHECK_DEADLOCK FALSE\n"
+    v = verdicts("VisibilityTrace", cfg, {"traces": [{"grid": grid, "stream": st} for st in (good, dup, below, missing, wrong, blunt)]}, extra={name + ".tla": mc}, name=name)
+    ok &= expect("visibility: a correct stream accepted " + str(v.get(1)), 1 not in v)
+    ok &= expect("visibility: a repeated AOS rejected", "aos-los-duplicated" in v.get(2, ()))
+    ok &= expect("visibility: a sample below the horizon rejected", "sample-below-horizon-or-repeated" in v.get(3, ()))
+    ok &= expect("visibility: a missing above-horizon sample rejected", "above-horizon-sample-missing" in v.get(4, ()))
+    ok &= expect("visibility: AOS labelled LOS rejected", "aos-los-label" in v.get(5, ()))
+    ok &= expect("visibility: an AOS away from zero elevation rejected", "event-not-at-zero" in v.get(6, ()))
     # ---- RangeLoop.tla with Apalache: the inductive argument is not vacuous -----------------------------------------------------
     from lib import apalache
     from checks.c03 import RL_VARS
